@@ -384,8 +384,23 @@ func (c06) runConc(x *Exec, s *AsyncScn) {
 					later++
 				}
 			}
-			if later < s.BufferSize-1 {
-				o.violate("dropped-newest", "C06/conc/discard-oldest-dropped-a-recent-item", "DiscardOldest dropped %s although only %d submissions were not complete before it was invoked (capacity %d): it cannot have been the oldest", xsb.ID, later, s.BufferSize)
+			// the overflow loop is not atomic: between a producer seeing the buffer full and its
+			// eviction the worker may take items, so the evicted head can have fewer than
+			// capacity-1 items behind it - by at most the number of worker takes since x was invoked
+			takes := 0
+			for _, it := range items {
+				st := 0
+				if it.Ev != nil {
+					st = it.Ev.Step
+				} else {
+					st = it.Wr.Step
+				}
+				if st > xsb.Invoke {
+					takes++
+				}
+			}
+			if later+takes < s.BufferSize-1 {
+				o.violate("dropped-newest", "C06/conc/discard-oldest-dropped-a-recent-item", "DiscardOldest dropped %s although only %d submissions were not complete before it was invoked and the worker took %d items since (capacity %d): it cannot have been the oldest", xsb.ID, later, takes, s.BufferSize)
 				break
 			}
 		}
